@@ -35,7 +35,7 @@ def required(tier):
 
 def gen_cases(seed, tier):
     rng = np.random.default_rng([seed, 13])
-    n = 2600 if tier == 'quick' else 80000
+    n = 2600 if tier == 'quick' else 320000
     cases = []
     for i in range(n):
         g = work_sig.gen_geometry(rng, tier, small=(i % 2 == 0))
